@@ -574,7 +574,20 @@ class Schema(ResolverMap):
             },
         )
 
-        cloned.merge_resolvers(self)
+        # The copied fields already carry their resolvers. Transforms rename
+        # and remove fields of the schema they are applied to, so only the
+        # registry entries which still name a field are carried over.
+        for registry, register in (
+            (self.resolvers, cloned.register_resolver),
+            (self.subscriptions, cloned.register_subscription),
+        ):
+            for typename, field_resolvers in registry.items():
+                object_type = cloned.types.get(typename)
+                if not isinstance(object_type, ObjectType):
+                    continue
+                for fieldname, resolver in field_resolvers.items():
+                    if fieldname in object_type.field_map:
+                        register(typename, fieldname, resolver)
 
         return cloned
 
